@@ -150,6 +150,12 @@ func (c RawConfiguration) handleCorrectableCall(ctx context.Context, corr *Corre
 		}
 	}
 
+	if state.expectedReplies == 0 {
+		// no node was targeted (the per node function skipped all of them)
+		corr.set(resp, clevel, QuorumCallError{cause: Incomplete, errors: errs, replies: len(replies)}, true)
+		return
+	}
+
 	for {
 		select {
 		case r := <-state.replyChan:
